@@ -128,6 +128,8 @@ def job_strategy(draw, spec: dict, fixed_universe: typing.Optional[dict] = None)
         cases: typing.List[dict] = []
         overrides: typing.Dict[str, int] = {}
         for ti, ct in enumerate(ctypes):
+            if spec.get("only_ti") is not None and ti != spec["only_ti"]:
+                continue
             mx = max_ser_bytes(ct)
             for k in range(spec.get("n_values", 0)):
                 dom = draw(st.sampled_from(spec.get("domains", ["range", "range", "storage", "storage", "invalid"])))
@@ -197,15 +199,25 @@ def draw_jobs(ctx: core.Ctx, n: int, spec: dict, seed_offset: int = 0) -> typing
     if spec.get("anchor", True):
         anchor: typing.List[dict] = []
 
-        @hypothesis.seed(ctx.seed * 1000003 + seed_offset + 77)
-        @core.hsettings(5)
-        @hypothesis.given(job_strategy(dict(spec, n_values=max(1, spec.get("n_values", 0) // 4) if spec.get("n_values") else 0, prior_states=min(1, spec.get("prior_states", 0)), n_byte_batches=min(1, spec.get("n_byte_batches", 0))), fixed_universe=anchor_universe()))
-        def collect_anchor(job):
-            anchor.append(job)
+        # one Hypothesis run per anchor type (a single example covering all ~200 fields of the anchor would exceed Hypothesis'
+        # entropy budget); the first generated example of each run is the minimal one (all zeros), so the cases of all
+        # examples are merged into one job
+        au = anchor_universe()
+        L = lab.Lab(au)
+        n_ct = len(L.ctypes)
+        L.close()
+        aspec = dict(spec, n_values=min(6, max(1, spec.get("n_values", 0) // 4)) if spec.get("n_values") else 0, prior_states=min(1, spec.get("prior_states", 0)), n_byte_batches=min(1, spec.get("n_byte_batches", 0)))
+        for ti in range(n_ct):
 
-        collect_anchor()
-        # the first generated example is the minimal one (all zeros): merge the cases of all examples into one job
+            @hypothesis.seed(ctx.seed * 1000003 + seed_offset + 77 + ti)
+            @core.hsettings(4)
+            @hypothesis.given(job_strategy(dict(aspec, only_ti=ti), fixed_universe=au))
+            def collect_anchor(job):
+                anchor.append(job)
+
+            collect_anchor()
         merged = anchor[-1]
+        merged["cases"] = list(merged["cases"])
         seen = {json.dumps(c, sort_keys=True) for c in merged["cases"]}
         for j in anchor[:-1]:
             for c in j["cases"]:
@@ -213,6 +225,10 @@ def draw_jobs(ctx: core.Ctx, n: int, spec: dict, seed_offset: int = 0) -> typing
                 if k not in seen:
                     seen.add(k)
                     merged["cases"].append(c)
+            for t in j["targets"]:
+                if t not in merged["targets"] and len(merged["targets"]) < 10:
+                    merged["targets"].insert(0, t)
+            merged["cap_overrides"] = dict(j.get("cap_overrides", {}), **merged.get("cap_overrides", {}))
         jobs = [merged] + jobs
     return jobs
 
